@@ -59,6 +59,16 @@ impl TryFrom<EdgeLoaderConfig> for EdgeLoader {
         let edges = read_utils::from_csv(&c.edge_list_csv, true, Some(cb))?;
 
         eprintln!();
+        if !missing_vertices.is_empty() {
+            let mut ids: Vec<usize> = missing_vertices.iter().map(|v| v.0).collect();
+            ids.sort_unstable();
+            return Err(NetworkError::DatasetError(format!(
+                "edge list refers to {} vertex id(s) outside the vertex table of size {}: {:?}",
+                ids.len(),
+                c.n_vertices,
+                ids.iter().take(10).collect::<Vec<_>>()
+            )));
+        }
         let result = EdgeLoader {
             edges,
             adj: adj.into_boxed_slice(),
